@@ -1,14 +1,19 @@
 /-
   Driver family `rdb` (C09, reusable for C10): the RDB codec model over the line protocol.
 
-    cfg <ver hex> <dropExpired 0|1> <keepEmptyStream 0|1>   -> ok       (crate version string, loader switches)
+    cfg <ver hex> <dropExpired 0|1> <keepEmptyStream 0|1> <listEscape 0|1> <escapeWrite 0|1>   -> ok
+                                           (crate version string, the three loader switches `Fix`, the writer's
+                                            escape rule; reader and writer are separate so that a tree with only
+                                            one half of the rule is still modelled exactly)
     enclen <n>                          -> <hex>
     declen <hex>                        -> ok <n> <consumed> | err
-    encsnap <t> <dataset tokens>        -> <file hex>                     (Rdb.encSnapshot)
+    encsnap <t> <dataset tokens>        -> <file hex>                     (Rdb.saveSnapshot with the writer switch)
     decsnap <now> <file hex>            -> ok <#allocs> <max alloc> <dataset tokens> | err <kind> <#allocs> <max alloc>
     live <now> <dataset tokens>         -> <dataset tokens>               (Spec: what a restart at `now` must yield)
-    hyps <t> <now> <dataset tokens>     -> <wf> <marker> <emptystream> <expires>   (0|1 each: the hypotheses / deviation
-                                           predicates of the theorems in Props/C09.lean, evaluated on this dataset)
+    hyps <t> <now> <dataset tokens>     -> <wf> <marker> <emptystream> <expires> <reserved>   (0|1 each: the hypotheses /
+                                           deviation predicates of the theorems in Props/C09.lean, evaluated on this dataset;
+                                           <wf> = well-formed AS WRITTEN by the configured writer, <reserved> = some list is
+                                           headed by the marker or the escape string)
 
   Dataset tokens (same grammar as harness/src/bin/impl_rdb.rs; deadlines are absolute ms):
     `D <db>`, then per key `K <key> <deadline|-> S <val>` | `L <hexlist>` | `T <hexlist>` | `H <flat hexlist>` |
@@ -150,16 +155,19 @@ def showErr : Err → String
 structure Cfg where
   ver : Bytes
   fix : Fix
+  /-- the writer applies the escape rule -/
+  escW : Bool
 
 def maxOf (l : List Nat) : Nat := l.foldl max 0
 
 def step (c : Cfg) (ws : List String) : Cfg × String :=
   match ws with
-  | ["cfg", v, a, b] =>
-    match ofHexFast v, a, b with
-    | some v, a, b =>
-      if (a == "0" || a == "1") && (b == "0" || b == "1") then (⟨v, ⟨a == "1", b == "1"⟩⟩, "ok") else (c, "bad-op")
-    | _, _, _ => (c, "bad-op")
+  | ["cfg", v, a, b, e, w] =>
+    match ofHexFast v with
+    | some v =>
+      if [a, b, e, w].all (fun x => x == "0" || x == "1") then (⟨v, ⟨a == "1", b == "1", e == "1"⟩, w == "1"⟩, "ok")
+      else (c, "bad-op")
+    | none => (c, "bad-op")
   | ["enclen", n] => match n.toNat? with
     | some n => (c, toHexFast (encLen n))
     | none => (c, "bad-op")
@@ -170,7 +178,7 @@ def step (c : Cfg) (ws : List String) : Cfg × String :=
     | none => (c, "bad-op")
   | "encsnap" :: t :: toks =>
     match t.toNat?, parseDataset (if toks == ["."] then [] else toks) [] with
-    | some t, some d => (c, toHexFast (encSnapshot c.ver d t))
+    | some t, some d => (c, toHexFast (saveSnapshot c.escW c.ver d t))
     | _, _ => (c, "bad-op")
   | ["decsnap", now, h] =>
     match now.toNat?, ofHexFast h with
@@ -189,10 +197,10 @@ def step (c : Cfg) (ws : List String) : Cfg × String :=
     match t.toNat?, now.toNat?, parseDataset (if toks == ["."] then [] else toks) [] with
     | some t, some now, some d =>
       let b (x : Bool) : String := if x then "1" else "0"
-      (c, s!"{b (datasetWF d)} {b (anyEntry (fun e => startsWithMarker e.val) d)} {b (anyEntry (fun e => isEmptyStream e.val) d)} {b (anyEntry (expiresInDowntime t now) d)}")
+      (c, s!"{b (datasetWF (escDataset c.escW d))} {b (anyEntry (fun e => startsWithMarker e.val) d)} {b (anyEntry (fun e => isEmptyStream e.val) d)} {b (anyEntry (expiresInDowntime t now) d)} {b (anyEntry (fun e => reservedHead e.val) d)}")
     | _, _, _ => (c, "bad-op")
   | _ => (c, "bad-op")
 
-def main : IO Unit := loop step ⟨[48, 46, 49, 46, 48], Fix.code⟩
+def main : IO Unit := loop step ⟨[48, 46, 49, 46, 48], Fix.code, false⟩
 
 end Ferrous.Drv.Rdb
